@@ -20,13 +20,15 @@ THEOREMS = [
     "Glob.lru_transparent", "Glob.lru_transparent_empty", "Glob.spec_plain", "Glob.spec_dstar_all",
     "Glob.spec_below_any_depth", "Glob.spec_direct_members", "Glob.spec_anywhere",
     "Privacy.parseRule_ok_iff", "Privacy.parseRule_colons", "Privacy.effective_cli_wins", "Privacy.effective_file_only",
-    "Privacy.precedence_effective", "Privacy.visPure_meaning", "Privacy.hidden_propagates",
+    "Privacy.precedence_effective_partial", "Privacy.visPure_meaning", "Privacy.hidden_propagates",
     "Privacy.coherent_of_wellNamed", "Privacy.cache_transparent_moves_wellNamed",
     "Privacy.kindNone_hidden", "Privacy.bare_underscores", "Privacy.cache_survives_rule_change", "Privacy.empty_pattern_and_alias_accepted",
     "Glob.spec_empty", "Glob.spec_triple_star", "Glob.set_conventions",
     "Privacy.default_meaning", "Privacy.exact_wins", "Privacy.last_pattern_wins", "Privacy.default_applies",
     "Privacy.precedence_partial", "Privacy.precedence_counterexample",
-    "Privacy.parseRule_wellFormed", "Privacy.cli_rules_wellFormed", "Privacy.precedence_cli",
+    "Privacy.parseRule_wellFormed", "Privacy.cli_rules_wellFormed", "Privacy.precedence_cli_partial",
+    "Privacy.precedence_counterexample_kindNone", "Privacy.precedence_counterexample_underscores", "Privacy.default_counterexample",
+    "Privacy.defaultLevel_eq_manual",
     "Privacy.defaultOf_meaning", "Privacy.main_module_rule_applies", "Privacy.main_module_counterexample_before_c8d85b0",
     "Privacy.cli_never_raises", "Privacy.cli_rejects_backwards_range",
     "Privacy.cache_transparent", "Privacy.cache_transparent_moves", "Privacy.cache_counterexample", "Privacy.isVisible_meaning",
@@ -36,10 +38,12 @@ PARTIAL = {
                             "excluded = patterns with a bracket expression holding a descending range (Glob.wellFormed = false); "
                             "witness Glob.qnmatch_counterexample ([b-a])",
     "Privacy.precedence_partial": "arbitrary rule lists (options.privacy filled by hand): excluded = lists holding a pattern with a "
-                                  "descending range (witness Privacy.precedence_counterexample) and objects without a kind "
-                                  "(kind is None -> HIDDEN, not documented at all)",
-    "Privacy.precedence_cli": "every --privacy list the option parser accepts, every object that has a kind (modules named "
-                              "__main__ included since c8d85b0; the former behaviour is Privacy.main_module_counterexample_before_c8d85b0)",
+                                  "descending range (Privacy.precedence_counterexample), objects whose kind is None "
+                                  "(precedence_counterexample_kindNone, open findings kind-none-hidden:*) and the names '__', '___' "
+                                  "(precedence_counterexample_underscores, open finding default:underscore-only-name-public)",
+    "Privacy.precedence_cli_partial": "every --privacy list the option parser accepts; excluded = objects whose kind is None and the "
+                                      "names '__', '___' (same witnesses)",
+    "Privacy.precedence_effective_partial": "the same for configuration file + command line",
     "Privacy.cache_transparent": "hypothesis: two queried objects with the same qualified name have the same name and kind "
                                  "(the cache is keyed by qualified name only); witness Privacy.cache_counterexample",
     "Privacy.cache_transparent_moves": "same hypothesis over every record an object has during the history (initial world and moves)",
@@ -59,7 +63,10 @@ ASSUMPTIONS = [
     "re.compile/match of CPython 3.12 on the emitted fragment behaves as Regex.parseSet/Regex.matchA say (parameter; exercised by every glob stream)",
     "inside [seq] the manual does not define ranges; the oracle and Glob.spec read lo-hi as a code-point range (fnmatch convention), "
     "a descending range as empty, an unclosed [ as a literal, and the first character after [ or [! as part of seq even when it is ]",
-    "dunder = starts and ends with two underscores (so '__' and '___' count as dunders, as in the code)",
+    "dunder = the manual's own pattern __*__ (two underscores, anything, two underscores: at least four characters); "
+    "'__' and '___' are not dunders (open finding default:underscore-only-name-public), '____' is",
+    "the artificial kind-None attribute of the hand-built tree (p.m.k, kind set to None by the harness) is compared with the model "
+    "but not judged by the oracle; kind-None objects made by the real AST builder (privacy-source stream) are judged",
     "the oracle's default includes 'modules named __main__ are PRIVATE' exactly when docs/source/customize.rst of the tree under "
     "test lists it under the PRIVATE default (it does since c8d85b0)",
     "parse_privacy_tuple: str.strip/str.upper are modelled on ASCII (non-ASCII characters inside the pattern are covered; a non-ASCII "
@@ -528,6 +535,7 @@ def build_system(rule_strings: Sequence[str], via: Any = False):
         ob = getattr(system, cls)(system, full.rpartition(".")[2], parent)
         if full in KIND_NONE:
             ob.kind = None
+            ob._c13_artificial_kind = True
         if parent is not None and not isinstance(ob, model.Module):
             ob.parentMod = parent if isinstance(parent, model.Module) else parent.parentMod
         system.addObject(ob)
@@ -584,8 +592,6 @@ def chain_of(ob):
 def o_level(rules: Sequence[Tuple[str, str]], ob) -> str:
     """the property's statement: exact beats pattern, among the same sort the last wins, else the default"""
     full = ob.fullName()
-    if ob.kind is None:
-        return "HIDDEN"   # objects without a kind are not documented at all (not part of the property; follows the code)
     exact = [lv for lv, pat in rules if pat == full]
     if exact:
         return exact[-1]
@@ -593,7 +599,9 @@ def o_level(rules: Sequence[Tuple[str, str]], ob) -> str:
     if hits:
         return hits[-1]
     name = ob.name
-    dunder = name.startswith("__") and name.endswith("__")
+    # a dunder is what the manual's own pattern describes ("PRIVATE:**.__*__ makes all dunder methods private"):
+    # two underscores, anything, two underscores - at least four characters ('__' and '___' are not)
+    dunder = len(name) >= 4 and name.startswith("__") and name.endswith("__")
     if name.startswith("_") and not dunder:
         return "PRIVATE"
     # "… and for modules named ``__main__``": only when the manual of the tree under test says so
@@ -613,6 +621,34 @@ def manual_documents_main_default() -> bool:
         return False
     m = re.search(r"^- ``PRIVATE``: By default(.*?)^- ``PUBLIC``", text, re.S | re.M)
     return bool(m and "__main__" in m.group(1))
+
+
+def classify_privacy_failure(op: str, ob, scope, got: str, want: str, parsed, rule_strings, assigned=None) -> Optional[Tuple[str, str]]:
+    """signature + text for an answer that differs from the documented rules (None: not judged)"""
+    from pydoctor import model
+    if any(getattr(x, "_c13_artificial_kind", False) for x in scope):
+        return None
+    meth = {"c": "privacyClass", "v": "isVisible", "p": "isPrivate"}[op]
+    full = ob.fullName()
+    where = f"{meth} of {full} is {got}, the documented rules give {want} (--privacy {rule_strings})"
+    if got.endswith("Error"):
+        bad = [pat for _, pat in parsed if not o_wellformed(o_tokens(pat))]
+        return (f"raises:{got}:" + ("descending-range" if bad else "other"), f"{full}.{meth} raised {got} under --privacy {rule_strings}")
+    nokind = [x for x in scope if x.kind is None]
+    if nokind:
+        how = "assigned-variable" if assigned is not None and nokind[0].fullName() in assigned else "type-field-only"
+        return ("kind-none-hidden:" + how, f"{nokind[0].fullName()} has kind None ({how}): " + where)
+    mains = [x for x in scope if isinstance(x, model.Module) and x.name == "__main__"]
+    if mains:
+        ruled = any(pat == mains[0].fullName() or o_qnmatch(mains[0].fullName(), pat) for _, pat in parsed)
+        return ("main-module:" + ("rule-ignored" if ruled else "default-private"), f"module {mains[0].fullName()}: " + where)
+    bare = [x for x in scope if x.name in ("__", "___")
+            and not any(pat == x.fullName() or o_qnmatch(x.fullName(), pat) for _, pat in parsed)]
+    if bare:
+        return ("default:underscore-only-name-public", f"{bare[0].fullName()} (no rule applies to it): " + where)
+    if op == "v" and got == "True" and not all(is_entry(x) for x in scope):
+        return ("superseded-visible", f"{full}.isVisible is True although it is (inside) a superseded older definition")
+    return ("privacy-differs:" + op, where)
 
 
 def privacy_eval(rules: Sequence[Tuple[str, str]], queries: Sequence[Tuple[str, str]], via_args: bool) -> Dict[str, Any]:
@@ -670,22 +706,11 @@ def privacy_eval(rules: Sequence[Tuple[str, str]], queries: Sequence[Tuple[str, 
             applies = True
         if got != want:
             inp = {"rules": rule_strings, "queries": [list(q) for q in queries], "failing_query": [op, full]}
-            mains = [x for x in scope if isinstance(x, model.Module) and x.name == "__main__"]
-            meth = {"c": "privacyClass", "v": "isVisible", "p": "isPrivate"}[op]
-            if got.endswith("Error") and raw:
-                pass   # a hand-made rule list: qnmatch raising on a pattern re refuses is outside the property
-            elif got.endswith("Error"):
-                bad = [pat for _, pat in parsed if not o_wellformed(o_tokens(pat))]
-                fails.append((f"raises:{got}:" + ("descending-range" if bad else "other"), inp,
-                              f"{full}.{meth} raised {got} under --privacy {rule_strings}"))
-            elif op == "v" and got == "True" and not all(is_entry(x) for x in ch):
-                fails.append(("superseded-visible", inp, f"{full}.isVisible is True although it is (inside) a superseded older definition"))
-            elif mains:
-                ruled = any(pat == mains[0].fullName() or o_qnmatch(mains[0].fullName(), pat) for _, pat in parsed)
-                fails.append(("main-module:" + ("rule-ignored" if ruled else "default-private"), inp,
-                              f"module {mains[0].fullName()}: {meth} of {full} is {got}, the documented rules give {want} (--privacy {rule_strings})"))
-            else:
-                fails.append(("privacy-differs:" + op, inp, f"{full}.{meth} = {got}, the documented rules give {want} (--privacy {rule_strings})"))
+            if raw and got.endswith("Error"):
+                continue   # a hand-made rule list: qnmatch raising on a pattern re refuses is outside the property
+            v = classify_privacy_failure(op, ob, scope, got, want, parsed, rule_strings)
+            if v:
+                fails.append((v[0], inp, v[1]))
     cache = cache_repr(system)
     return {"line": " ".join(req), "impl": " ".join(answers) + " | " + cache, "answers": answers, "fails": fails,
             "applies": applies, "rules": rule_strings, "queries": [list(q) for q in queries]}
@@ -801,21 +826,11 @@ def moves_eval(rules: Sequence[Tuple[str, str]], events: Sequence[tuple]) -> Dic
             applies = True
         if got != want:
             inp = dict(payload, failing_event=[op, lab], current_name=ob.fullName())
-            meth = {"c": "privacyClass", "v": "isVisible", "p": "isPrivate"}[op]
-            mains = [x for x in scope if isinstance(x, model.Module) and x.name == "__main__"]
-            if got.endswith("Error"):
-                fails.append((f"raises:{got}:" + ("descending-range" if any(not o_wellformed(o_tokens(p)) for _, p in parsed) else "other"),
-                              inp, f"{ob.fullName()}.{meth} raised {got} under --privacy {rule_strings}"))
-            elif mains:
-                ruled = any(pat == mains[0].fullName() or o_qnmatch(mains[0].fullName(), pat) for _, pat in parsed)
-                fails.append(("main-module:" + ("rule-ignored" if ruled else "default-private"), inp,
-                              f"module {mains[0].fullName()}: {meth} of {ob.fullName()} is {got}, the documented rules give {want}"))
-            elif any(id(x) in moved for x in scope):
-                fails.append(("stale-after-move:" + op, inp,
-                              f"after a move, {meth} of {ob.fullName()} (created as {lab}) is {got}; the documented rules give {want} "
-                              f"for its current qualified name (--privacy {rule_strings})"))
-            else:
-                fails.append(("privacy-differs:" + op, inp, f"{ob.fullName()}.{meth} = {got}, the documented rules give {want} (--privacy {rule_strings})"))
+            v = classify_privacy_failure(op, ob, scope, got, want, parsed, rule_strings)
+            if v and v[0].startswith("privacy-differs") and any(id(x) in moved for x in scope):
+                v = ("stale-after-move:" + op, f"after a move (object created as {lab}): " + v[1])
+            if v:
+                fails.append((v[0], inp, v[1]))
     # the hypotheses of Privacy.cache_transparent_moves_wellNamed, read off the real objects
     wn = all("." not in o.name and (o.fullName() == o.name or o.fullName().endswith("." + o.name)) for o in order)
     return {"line": " ".join(req), "impl": " ".join(answers) + " | " + cache_repr(system), "fails": fails,
@@ -1044,6 +1059,164 @@ def run_corpus(ctx: Ctx) -> None:
 
 
 # ---------------------------------------------------------------------------------------------------
+# systems made by the real AST builder from generated source: @type / @ivar fields, underscore-only names
+
+SRC_NAMES = ["x", "y", "_p", "_", "__", "___", "____", "__d__", "Z", "t"]
+
+
+def gen_source(rng) -> Tuple[str, set]:
+    """a module `mod` (+ class C); returns the text and the qualified names the code really defines"""
+    assigned = set()
+    mod_names = rng.sample(SRC_NAMES, rng.randint(2, 5))
+    typed = [n for n in mod_names if rng.random() < 0.45]
+    ghosts = [n for n in ("ghost", "_ghost") if rng.random() < 0.3]          # declared by a @type field only
+    lines = ['"""', "Module."] + [f"@type {n}: int" for n in typed + ghosts] + ['"""']
+    for n in mod_names:
+        lines.append(f'{n} = {rng.choice(["1", "len(\"abc\")", "[]"])}')
+        if rng.random() < 0.6:
+            lines.append(f'"""The {n}."""')
+        assigned.add("mod." + n)
+    cls_names = rng.sample(SRC_NAMES, rng.randint(1, 4))
+    ctyped = [n for n in cls_names if rng.random() < 0.4] + [n for n in ("t2",) if rng.random() < 0.4]
+    lines += ["class C:", '    """', "    Class."] + [f"    @type {n}: int" for n in ctyped] + ['    """']
+    assigned.add("mod.C")
+    for n in cls_names:
+        if rng.random() < 0.5:
+            lines.append(f"    {n} = 2")
+        else:
+            lines += [f"    def {n}(self):", f'        """Method {n}."""']
+        assigned.add("mod.C." + n)
+    return "\n".join(lines) + "\n", assigned
+
+
+def source_eval(src: str, assigned: Sequence[str], rules: Sequence[Tuple[str, str]]) -> Dict[str, Any]:
+    from pydoctor import model, options
+    global _DEFAULT_OPTS
+    rule_strings = [f"{lv}:{pat}" for lv, pat in rules]
+    if _DEFAULT_OPTS is None:
+        _DEFAULT_OPTS = options.Options.defaults()
+    opts = copy.copy(_DEFAULT_OPTS)
+    opts.privacy = options._convert_privacy(rule_strings)
+    system = model.System(opts)
+    with contextlib.redirect_stderr(io.StringIO()):
+        builder = system.systemBuilder(system)
+        builder.addModuleString(src, "mod")
+        builder.buildModules()
+    parsed = [(lv.name, pat) for lv, pat in system.options.privacy]
+    req = ["privacy cli"] + [f"V {enc(r)}" for r in rule_strings]
+    answers, fails = [], []
+    aset = set(assigned)
+    for ob in list(system.allobjects.values()):
+        for op in ("c", "v"):
+            ch = chain_of(ob)
+            scope = ch if op == "v" else [ob]
+            req.append("Q %s %s" % (op, ";".join(obj_token(x) for x in scope)))
+            try:
+                got = ob.privacyClass.name if op == "c" else str(ob.isVisible)
+            except Exception as e:
+                got = exc_name(e)
+            answers.append(got)
+            lv = o_level(parsed, ob)
+            want = lv if op == "c" else str(all(o_level(parsed, x) != "HIDDEN" for x in ch) and all(is_entry(x) for x in ch))
+            if got != want:
+                v = classify_privacy_failure(op, ob, scope, got, want, parsed, rule_strings, aset)
+                if v:
+                    fails.append((v[0], {"source": src, "assigned": sorted(aset), "rules": rule_strings, "failing_query": [op, ob.fullName()]}, v[1]))
+    kinds = sum(1 for o in system.allobjects.values() if o.kind is None)
+    return {"line": " ".join(req), "impl": " ".join(answers) + " | " + cache_repr(system), "fails": fails,
+            "payload": {"source": src, "assigned": sorted(aset), "rules": rule_strings}, "nokind": kinds, "objects": len(system.allobjects)}
+
+
+def _source_chunk(jobs):
+    warnings.filterwarnings("ignore", category=FutureWarning)
+    return [source_eval(*j) for j in jobs]
+
+
+SOURCE_CORPUS = [   # hunt/C13/1 and hunt/C13/3
+    ('"""\n@type x: int\n"""\nx = len("abc")\n"""The x."""\ny = len("abc")\n"""The y."""\nclass C:\n    """\n    @type t: int\n    """\n',
+     ["mod.x", "mod.y", "mod.C"]),
+    ('_ = 1\n__ = 2\n___ = 3\n____ = 4\n__x = 5\n__x__ = 6\nclass C:\n    def _(self): "d"\n    def __(self): "d"\n',
+     ["mod._", "mod.__", "mod.___", "mod.____", "mod.__x", "mod.__x__", "mod.C", "mod.C._", "mod.C.__"]),
+]
+SOURCE_RULES = [[], [("PUBLIC", "mod.x")], [("PUBLIC", "**")], [("PUBLIC", "**"), ("PRIVATE", "mod.?")], [("PUBLIC", "mod.C.t")],
+                [("HIDDEN", "mod.__")], [("PRIVATE", "**._*")]]
+
+
+def run_source(ctx: Ctx) -> None:
+    rng = ctx.rng
+    jobs = [(src, asg, rules) for src, asg in SOURCE_CORPUS for rules in SOURCE_RULES]
+    texts = ["mod.x", "mod.y", "mod.__", "mod.C.t", "mod.C.t2", "mod.ghost", "**", "mod.?", "mod.*", "mod.C.*", "**._*", "**.__*__", "mod.C.__"]
+    for _ in range(250 if ctx.quick else 4000):
+        src, asg = gen_source(rng)
+        rules = [(rng.choice(LEVELS), rng.choice(texts)) for _ in range(rng.randint(0, 3))]
+        jobs.append((src, sorted(asg), rules))
+    step = 50
+    chunks = [jobs[i:i + step] for i in range(0, len(jobs), step)]
+    with multiprocessing.get_context("fork").Pool(16) as pool:
+        results = [r for part in pool.map(_source_chunk, chunks) for r in part]
+    for r in results:
+        ctx.case(r["line"], r["nokind"] > 0 or bool(r["payload"]["rules"]), r["payload"] if r["nokind"] and ctx.dist.get("privacy-source:cases", 0) < 1 else None)
+        ctx.count("privacy-source:cases")
+        ctx.count("privacy-source:objects", r["objects"])
+        ctx.count("privacy-source:kind-None-objects", r["nokind"])
+        for f in r["fails"]:
+            ctx.fail(*f)
+    ctx.compare("privacy-source", [r["line"] for r in results], [r["impl"] for r in results], [r["payload"] for r in results])
+
+
+# ---------------------------------------------------------------------------------------------------
+# time: the privacy of an object must be determined - a match that does not return determines nothing
+
+TIME_LIMIT = 0.15   # seconds for ONE match of a pattern of < 40 characters against a name of < 50 (the manual's meaning is decided
+#                     in O(len(pattern) * len(name)): microseconds); measured twice, the faster run counts
+
+
+def timed_match(name: str, pat: str) -> Tuple[Any, float]:
+    import time
+    from pydoctor import qnmatch
+    best, res = None, None
+    for _ in range(2):
+        qnmatch._compile_pattern.cache_clear()
+        t = time.perf_counter()
+        try:
+            res = qnmatch.qnmatch(name, pat)
+        except Exception as e:
+            res = exc_name(e)
+        dt = time.perf_counter() - t
+        best = dt if best is None else min(best, dt)
+        if best < TIME_LIMIT:
+            break
+    return res, best
+
+
+def star_heavy_case(rng, stars: int = 6) -> Tuple[str, str]:
+    """a near miss: `pre.*c*c*…*d` against `pre.cccc…c` (d does not occur in the name)"""
+    c, d = rng.sample("ab_xyz", 2)
+    pre = rng.choice(["mod.", "p.m.", ""])
+    star = rng.choice(["*", "*", "**"])
+    return pre + c * 40, pre + (star + c) * stars + "*" + d
+
+
+def run_time(ctx: Ctx) -> None:
+    cases = [("mod." + "a" * 40, "mod." + "*a" * 6 + "*b")]     # hunt/C13/2, at a size that still returns
+    cases += [star_heavy_case(ctx.rng) for _ in range(2 if ctx.quick else 8)]
+    reqs, impls, pay = [], [], []
+    for name, pat in cases:
+        res, dt = timed_match(name, pat)
+        toks = o_tokens(pat)
+        ctx.count("time:cases")
+        ctx.case("time " + pat, True, None)
+        reqs.append("glob match " + enc(pat) + " " + enc(name))
+        impls.append(impl_translate(pat) + " " + (bitstr([res]) if isinstance(res, bool) else res))
+        pay.append({"pattern": pat, "names": [name]})
+        if dt > TIME_LIMIT:
+            ctx.fail("qnmatch-time:exponential-in-stars", {"pattern": pat, "names": [name], "seconds": round(dt, 2)},
+                     f"qnmatch({name!r}, {pat!r}) needs {dt:.2f} s ({pat.count('*')} stars; two more stars: minutes, the hunter's "
+                     f"14 stars: no answer at all); the manual's meaning ({o_match(toks, name)}) is decided in microseconds")
+    ctx.compare("glob-time", reqs, impls, pay)
+
+
+# ---------------------------------------------------------------------------------------------------
 # qnmatch through its lru_cache: answers and cache_info() against the model of the cache
 
 def run_lru(ctx: Ctx) -> None:
@@ -1135,6 +1308,8 @@ def run(ctx: Ctx) -> None:
     run_lru(ctx)
     run_privacy(ctx)
     run_moves(ctx)
+    run_source(ctx)
+    run_time(ctx)
     run_config(ctx)
     run_parse(ctx)
 
@@ -1175,6 +1350,23 @@ def replay(ctx: Ctx, obj) -> int:
             inp["value"].partition(":")[0].strip().upper() in ("PUBLIC", "PRIVATE", "HIDDEN", "VISIBLE")
         print("oracle :", "a pattern with a meaning in the manual is refused" if bad else "property holds on this input")
         return 1 if bad else 0
+    if isinstance(inp, dict) and "source" in inp:
+        rules = [tuple(r.split(":", 1)) for r in inp["rules"]]
+        r = source_eval(inp["source"], inp.get("assigned", []), rules)
+        print("source :", repr(inp["source"]))
+        print("rules  :", inp["rules"])
+        print("impl   :", r["impl"][:600])
+        try:
+            print("model  :", ctx.driver.run([r["line"]])[0][:600])
+        except Exception as e:
+            print("model  : unavailable", e)
+        print("oracle :", "; ".join(sorted({f[2] for f in r["fails"]}))[:1500] if r["fails"] else "property holds on this input")
+        return 1 if r["fails"] else 0
+    if isinstance(inp, dict) and "seconds" in inp:
+        res, dt = timed_match(inp["names"][0], inp["pattern"])
+        print(f"qnmatch({inp['names'][0]!r}, {inp['pattern']!r}) = {res} after {dt:.2f} s (limit {TIME_LIMIT} s)")
+        print("oracle :", "too slow: the privacy is not determined in reasonable time" if dt > TIME_LIMIT else "property holds on this input")
+        return 1 if dt > TIME_LIMIT else 0
     if isinstance(inp, dict) and "events" in inp:
         rules = [tuple(r.split(":", 1)) for r in inp["rules"]]
         r = moves_eval(rules, [tuple(e) for e in inp["events"]])
